@@ -22,6 +22,8 @@ func init() {
 var bufioConsumers = map[string]bool{"Read": true, "ReadByte": true, "ReadBytes": true, "ReadLine": true, "ReadRune": true, "ReadSlice": true, "ReadString": true, "WriteTo": true, "Discard": true, "Peek": true}
 
 func runC18(r *Run, p *Prog) {
+	// U4: an abandoned read must be joined before the operation returns, or its helper consumes the next bytes of the stream
+	siblingRules(r, p, "C17", []string{"D1", "D2", "D3"}, "U4")
 	ro := DiscoverRoles(p)
 	T := ro.T
 	if ro.ConnT == nil {
